@@ -1,7 +1,7 @@
 #!/bin/bash
 # runs the quick check of the broken property against every stored seeded change, on a scratch copy of /repo
 # (PYVC_REPO points the verifier and the run-time searchers at it); writes selftest/seed_results.txt
-cd /verif
+cd "$(dirname "$0")/.."; V=$(pwd)
 out=selftest/seed_results.txt
 [ -z "${1:-}" ] && : > $out
 for d in seeded/*/; do
@@ -10,7 +10,7 @@ for d in seeded/*/; do
   prop=$(python3 -c "import json;print(json.load(open('$d/meta.json'))['property'])")
   scr=/tmp/seedrun_$id
   rm -rf $scr; mkdir -p $scr; cp -r /repo/PyXAB $scr/
-  (cd $scr && git init -q . && git apply /verif/$d/patch.diff) || { echo "$id: patch does not apply" >> $out; rm -rf $scr; continue; }
+  (cd $scr && git init -q . && git apply $V/$d/patch.diff) || { echo "$id: patch does not apply" >> $out; rm -rf $scr; continue; }
   r=$(PYVC_REPO=$scr ./check $prop --quick 2>&1 | grep -E "VIOLATION|failed obligation|UNDECIDED|CHECKER|contract not|property=" | head -8 | tr '\n' '|')
   rm -rf $scr
   echo "$id [$prop]: $r" >> $out
